@@ -12,7 +12,8 @@
                                          vk, vn, vb   reply sent ("bytes" | "none"),
                                          x  exception class or "",  s, l  state after,
                                          a  client verdict,  al  connection loop alive,
-                                         g  (optional) seconds since the previous request} ... ]} ... ]
+                                         g  (optional) seconds since the previous request,
+                                         t  (optional, with the trace field m2) the twin's exchange} ... ]} ... ]
    mode "E": clauses E1..E4 of C13;  mode "A": clauses A1..A3 of C14.
    One initial state per trace; the verdict is total: "ok" or the label of the
    first clause broken, plus the set of ALL failing <<step, label>> pairs and
@@ -44,12 +45,30 @@ X(e) == [q |-> [b |-> e.q, n |-> e.n, p |-> e.p],
 \* optional step field g: whole seconds of the server's clock between the previous request and this one, during
 \* which tester connections may have come and gone (histories over several connections); steps without it are
 \* judged as before
-SV(t, i) ==
+SV0(t, i) ==
   IF t.mode = "E"
   THEN IF "g" \in DOMAIN t.steps[i]
        THEN StepVerdictEG(Views[t.m], SeqSet(t.B), Before(t, i), t.steps[i].g, X(t.steps[i]))
        ELSE StepVerdictE(Views[t.m], SeqSet(t.B), Before(t, i), X(t.steps[i]))
   ELSE StepVerdictA(Views[t.m], Before(t, i), X(t.steps[i]))
+
+\* optional trace field m2 + step field t ([E4-only-that-rule]): the exchange of the twin -- the same virtual ECU
+\* (seed, parameters, switches, history) whose model m2 offers the service and sub-function in the active session --
+\* for the same request: {q, n, p, pk, pn, pb, vk, vn, vb, x, s, l  as in a step;  bs, bl  the twin's state before}.
+\* A step that passes E1..E3 is then also held against its twin.
+Y(e) == [q |-> [b |-> e.q, n |-> e.n, p |-> e.p], before |-> [session |-> e.bs, level |-> e.bl],
+         pre |-> Rep(e.pk, e.pn, e.pb), vis |-> Rep(e.vk, e.vn, e.vb), raised |-> e.x, after |-> StateOf(e)]
+HasTwin(t, i) == t.mode = "E" /\ "m2" \in DOMAIN t /\ "t" \in DOMAIN t.steps[i]
+SV(t, i) ==
+  LET base == SV0(t, i) IN
+  IF base = "ok" /\ HasTwin(t, i)
+  THEN StepVerdictE4T(Views[t.m], Views[t.m2], SeqSet(t.B), Before(t, i), X(t.steps[i]), Y(t.steps[i].t))
+  ELSE base
+\* how many steps of the trace were really compared with their twin (guards the family against vacuity)
+TwinCount(t) ==
+  Cardinality({i \in 1..Len(t.steps) :
+                 /\ HasTwin(t, i)
+                 /\ TwinJudged(Views[t.m], Views[t.m2], SeqSet(t.B), Before(t, i), X(t.steps[i]), Y(t.steps[i].t))})
 
 Min(S) == CHOOSE x \in S : \A y \in S : x <= y
 Result(t) ==
@@ -65,6 +84,7 @@ TNext == /\ verdict = "?"
          /\ LET r == Result(T[tid]) IN
             /\ verdict' = r[1]
             /\ PrintT(<<"V", T[tid].id, r[1], r[2], r[3]>>)
+            /\ IF "m2" \in DOMAIN T[tid] THEN PrintT(<<"W", T[tid].id, TwinCount(T[tid])>>) ELSE TRUE
          /\ tid' = tid
 TSpec == TInit /\ [][TNext]_tvars
 =============================================================================
